@@ -242,8 +242,10 @@ Definition xpile_fits (items : xp_items) (fp : Z) (s : size) : bool :=
      | Some maxrow => (zsum (map fst rs) <=? maxrow) && (0 <? snd (xpile_pass1 items (fst s)))
      | None => true
      end
-  (* an item rendered fixed is not wider than the Pile; a Pile rendered fixed has a width *)
-  && (if is_fixed s then 1 <=? xpile_max_width items
+  (* an item rendered fixed is not wider than the Pile; a Pile rendered fixed has a width and all its fixed items have
+     that width (Pile.render(()) does not pad narrower items: the canvas would be ragged, see the report) *)
+  && (if is_fixed s then (1 <=? xpile_max_width items)
+                         && forallb (fun it => x_flow (snd it) || (fst (x_pack (snd it)) =? xpile_max_width items)) items
       else forallb (fun it => x_flow (snd it) || negb (x_fixed (snd it) && is_ppack (fst it)) || (fst (x_pack (snd it)) <=? fst s)) items).
 Definition xpile_node (items : xp_items) (fp : Z) : node :=
   Node (xpile_cinfo items) (fun s => pile_place_from (xpile_rows_sizes items s) 0 0 fp)
